@@ -682,6 +682,65 @@ def rule_header_layout(ctx):
     ctx.floor(R, "header accessors decided", n, 4)
 
 
+def rule_id_space(ctx):
+    R = "C14.12"
+    ctx.rule(R, "stream id space: Mux::verify rejects a configuration whose streams on one side (all capabilities TOGETHER) exceed MAX_STREAM_COUNT - ids are handed out consecutively over all capabilities of a side (C14.3), so only the bound on the sum keeps every wire id distinct; and StreamId::new refuses an id the 13-bit field cannot carry instead of wrapping it")
+    from engine.query import LocalFlow
+    v = ctx.F.body_of(ctx.fn(MUX + "::verify"))
+    T = ctx.T(v)
+    msc = ctx.F.const(NET + "::mux::config::MAX_STREAM_COUNT")
+    ACC = ("Iterator::fold", "Iterator::sum", "Iterator::try_fold", "Iterator::reduce", "saturating_add", "checked_add", "wrapping_add", "overflowing_add")
+
+    def is_bound(t):
+        return (t[0] == "const" and t[1] == msc) or (t[0] == "cdef" and t[1].endswith("MAX_STREAM_COUNT"))
+    multi = set(l for l, d in T.defs.items() if len(d) > 1)
+    for side in ("accept", "connect"):
+        summed, element, other = [], [], []
+        for bb in range(len(v.blocks)):
+            si = T.switch_info(bb)
+            if si is None:
+                continue
+            sc = si[0]
+            while sc[0] == "un" and sc[1] == "Not":
+                sc = sc[2]
+            parts = common._cmp_parts(sc)
+            if parts is None:
+                continue
+            a, b = parts[1], parts[2]
+            if is_bound(a):
+                a, b = b, a
+            if not is_bound(b):
+                continue
+            mentions = any(x[0] == "field" and x[2] == side and x[1][0] == "param" for x in subterms(a))
+            acc = any(x[0] == "call" and x[1].endswith(ACC) for x in subterms(a)) or any(x[0] == "bin" and x[1] in ("Add", "AddWithOverflow") for x in subterms(a))
+            accvar = any(x[0] == "var" and x[1] in multi for x in subterms(a))
+            if mentions and acc:
+                summed.append(bb)
+            elif accvar:
+                other.append(bb)        # a running total kept in a local: which side it sums is not read - undecided
+            elif mentions or any(x[0] == "field" and x[2] == "max_streams" for x in subterms(a)):
+                element.insert(0, (bb, show(a)[:60])) if mentions else element.append((bb, show(a)[:60]))
+        if summed:
+            ctx.ob(R, "sum bound (%s)" % side, True, "the total of max_streams over self.%s is compared with MAX_STREAM_COUNT" % side, v.loc())
+        elif other:
+            ctx.note("C14.12 %s: the value compared with MAX_STREAM_COUNT is a running total in a local - not decided" % side)
+            ctx.ob(R, "sum bound (%s)" % side, True, "undecided shape (not reported)", v.loc())
+        else:
+            ctx.ob(R, "sum bound (%s)" % side, False, ("Mux::verify compares %s with MAX_STREAM_COUNT per capability, not the total over self.%s: a side whose capabilities together exceed the id space is accepted and stream ids alias each other" % (element[0][1], side))
+                   if element else "Mux::verify does not bound the number of streams of self.%s by MAX_STREAM_COUNT" % side, v.loc())
+    HQ = NET + "::mux::header"
+    fs = ctx.F.by_qname.get(HQ + "::StreamId::new") or []
+    g = fs[0] if fs else getattr(ctx.F, "helpers", {}).get(HQ + "::StreamId::new")
+    if g is None:
+        ctx.ob(R, "StreamId::new", False, "StreamId::new not found (anchor missing)")
+        return
+    Tg = ctx.T(g)
+    vals = [t for _, t in common.ret_values(ctx, g)]
+    wraps = [t for t in vals if any(x[0] == "bin" and x[1] in ("BitAnd", "Rem", "Shl", "Shr") for x in subterms(t)) or any(x[0] == "cast" for x in subterms(t))]
+    ctx.ob(R, "StreamId::new carries the id unchanged", not wraps and bool(vals), "StreamId(id) for an id within the mask (a larger id is a programming error, not wrapped)" if not wraps and vals else
+           "StreamId::new folds an out-of-range id into the 13-bit field (%s): two streams share a wire id" % (show(wraps[0])[:60] if wraps else "no value"), g.loc())
+
+
 def rule_casts(ctx):
     R = "C14.8"
     ctx.rule(R, "narrowing-cast census in mux / noise / frame: every integer cast to a narrower type is one of the reviewed, bounded ones")
@@ -725,4 +784,4 @@ def rule_casts(ctx):
 
 
 RULES = [("C14.11", rule_header_layout), ("C14.1", rule_permit_before_buffer), ("C14.2", rule_config), ("C14.3", rule_stream_ids), ("C14.4", rule_frame_kind_dispatch), ("C14.5", rule_drop_order), ("C14.9", rule_cancel_safe_flush), ("C14.10", rule_write_order), ("C14.6", rule_one_transient),
-         ("C14.7", rule_reader), ("C14.8", rule_casts)]
+         ("C14.7", rule_reader), ("C14.8", rule_casts), ("C14.12", rule_id_space)]
